@@ -395,11 +395,22 @@ class FakePub(object):
 
 
 class FakeStream(object):
+    """stands for the ZMQStream of the ROUTER socket.  `send` only queues: the message goes out when the loop polls the
+    socket in a later iteration, or at once through `flush()`.  The control socket has linger 0, so a message still queued
+    when the stream is closed — possible only when the loop has been stopped in the iteration that queued it — is lost."""
+
     def __init__(self, k, body_of):
         self.k = k
         self.body_of = body_of
         self._cid = None
         self.closed = False
+        self.queued = []             # observation lines of replies not yet on the wire
+        self.loop_stopped = lambda: False
+
+    def iteration_done(self):
+        """the loop goes around once more: everything queued is sent (unless the loop has been stopped: no more polls)"""
+        if not self.loop_stopped():
+            self.queued = []
 
     def send(self, data, flags=0, **kw):
         import zmq
@@ -410,15 +421,23 @@ class FakeStream(object):
             raise IOError("stream is closed")
         resp = json.loads(data)
         cid = self._cid.decode() if isinstance(self._cid, bytes) else str(self._cid)
-        self.k.out("o rep %s %s %s %s %s" % (cid, encj(resp.get("id")),
-                                           resp.get("status"), resp.get("errno", "-") if resp.get("status") == "error" else "-",
-                                           self.body_of(resp)))
+        line = "o rep %s %s %s %s %s" % (cid, encj(resp.get("id")),
+                                         resp.get("status"), resp.get("errno", "-") if resp.get("status") == "error" else "-",
+                                         self.body_of(resp))
+        self.k.out(line)
+        self.queued.append(line)
 
     def flush(self, *a, **kw):
-        pass
+        self.queued = []
 
     def close(self):
         if not self.closed:
+            for line in self.queued:
+                # never reached the wire: the client gets no answer
+                if line in self.k.log:
+                    self.k.log.remove(line)
+                self.k.out("o lost-reply " + line[len("o rep "):])
+            self.queued = []
             self.k.out("o close ctrl")
         self.closed = True
 
@@ -676,6 +695,11 @@ class Sim(object):
 
     def settle(self):
         for _ in range(10000):
+            st = getattr(getattr(self, "arb", None), "ctrl", None)
+            st = getattr(st, "stream", None)
+            if isinstance(st, FakeStream):
+                st.loop_stopped = lambda: self.stop_requested
+                st.iteration_done()
             self.aloop.call_soon(self.aloop.stop)
             try:
                 self.aloop.run_forever()
